@@ -10,6 +10,21 @@ PROPS = {
         "trusted_base": ["tools/extract's ban-site analysis (which functions look a tag/filter up by a non-constant name, and whether the function, all its callers, or the node's parser consult the ban list)", "whole-tree soundness (no banned name anywhere in a compiled tree incl. sub-templates) is decided by the route x file-composition suite, not yet by one theorem"],
         "assumptions": ["every registered tag and filter (enumerated through the VerifRegistered* hooks) is used as ban target on every syntactic and file-composition route; probe filter/tag count invocations"],
     },
+    "C04": {
+        "suites": [{"name": "c04-hist", "proj": ["history"]}],
+        "trusted_base": ["tools/extract's effect analysis: own CHA call graph from the Execute* entry points (interface methods -> every implementer, FilterFunction/TagParser values -> every function of that type, closures with their enclosing function, reflective entry points Super/String/Value.*), stopped at newTemplate (compilation builds fresh objects); stores classified by the static type of the object written", "aliasing through local variables is not tracked"],
+        "assumptions": ["histories of 2-5 executions with equal/different/failing contexts on one compiled template, all four whitespace option settings, compared with a fresh compile"],
+    },
+    "C05": {
+        "suites": [{"name": "c05-race", "proj": ["race"], "race": True}],
+        "trusted_base": ["Go memory model, scheduler and sync.Mutex (not modelled)", "the race detector (supports the search, is not the proof)", "tools/extract's effect and lock analysis"],
+        "assumptions": ["model-level proof; partial for the runtime: interleaving semantics over atomic steps, effect table extracted from the source"],
+    },
+    "C20": {
+        "suites": [{"name": "c20-hist", "proj": ["cache", "driver"]}, {"name": "c20-conc", "proj": ["race"], "race": True}],
+        "trusted_base": ["sync.Mutex semantics and the Go memory model (each FromCache/CleanCache call is taken as one atomic step, justified by the regenerated lock-discipline fact)", "harness loader's Abs = Go's path package, modelled in Lean (Path.clean/dir/join)"],
+        "assumptions": ["Debug is toggled only between concurrent phases (documented as caller-synchronised)"],
+    },
     "C06": {
         "suites": [
             {"name": "lex", "proj": ["tokens", "panic"]},
